@@ -2,6 +2,6 @@
 using namespace smooth;
 MC_SUBCHECK(bundle)
 {
-  c15::run<Bundle<SO3d, Eigen::Vector3d>>("Bundle<SO3,T3>d", 3, 5);
-  c15::run<Bundle<SO3d, C1d, Eigen::Vector2d>>("Bundle<SO3,C1,T2>d", 3, 4);
+  c15::run<Bundle<SO3d, Eigen::Vector3d>>("Bundle<SO3,T3>d", 5, 6);
+  c15::run<Bundle<SO3d, C1d, Eigen::Vector2d>>("Bundle<SO3,C1,T2>d", 4, 5);
 }
